@@ -201,8 +201,42 @@ static Outcome runCase(const KV& c)
         const std::string fr = tmpBase() + "_r.txt", ft = tmpBase() + "_t.txt";
         std::remove(fr.c_str());
         std::remove(ft.c_str());
-        if (fileMode == 1 || fileMode == 4)
+        if (fileMode == 1 || fileMode == 4 || fileMode == 5)
             g->writeToFile(fr, ft, precision);
+        std::unique_ptr<PolarGrid> asWritten;
+        if (fileMode == 5) {
+            // The files are lists of numbers separated by white space. The same numbers in another layout (several per
+            // line, tabs, blank lines, leading/trailing spaces, no final newline) must load as the same grid.
+            try {
+                asWritten = std::make_unique<PolarGrid>(fr, ft);
+            }
+            catch (const std::exception&) {
+            }
+            Rnd r(mutSeed);
+            for (const std::string* victim : {&fr, &ft}) {
+                std::ifstream in(*victim);
+                std::vector<std::string> tok;
+                std::string t;
+                while (in >> t)
+                    tok.push_back(t);
+                in.close();
+                std::ofstream out(*victim, std::ios::trunc);
+                const int perLine = r.irange(1, 5);
+                if (r.irange(0, 3) == 0)
+                    out << "\n  ";
+                for (size_t i = 0; i < tok.size(); i++) {
+                    out << tok[i];
+                    if (i + 1 == tok.size()) {
+                        if (r.irange(0, 1))
+                            out << "\n";
+                    }
+                    else if ((int)((i + 1) % perLine) == 0)
+                        out << (r.irange(0, 3) == 0 ? " \n\n" : "\n");
+                    else
+                        out << (r.irange(0, 1) ? " " : "\t");
+                }
+            }
+        }
         if (fileMode == 3) {
             std::ofstream(fr).close();
             std::ofstream(ft).close();
@@ -257,6 +291,14 @@ static Outcome runCase(const KV& c)
                 o.fail("loaded_invalid", "a grid loaded from files is invalid: " + w);
                 return o;
             }
+        }
+        if (fileMode == 5) {
+            const bool a = asWritten != nullptr, b = !threw;
+            if (a != b || (a && (asWritten->radii() != lg->radii() || asWritten->angles() != lg->angles()))) {
+                o.fail("file_layout", "the same numbers in another white-space layout load as a different grid (or one of the two files is rejected)");
+                return o;
+            }
+            o.cls("file_relayout_same_grid");
         }
         if (fileMode == 1) {
             // fixed notation with `precision` decimals: half a unit of the last written decimal, plus the rounding of the
@@ -339,7 +381,7 @@ static KV genCase()
     c.putI("div", div);
     c.putD("refinement", refinement);
     c.putI("max_levels", rpick({-1, -1, 0, 1, 2, 3, 4, 6}));
-    c.putI("file_mode", rweighted({4, 3, 1, 1, 3}));
+    c.putI("file_mode", rweighted({4, 3, 1, 1, 3, 2}));
     c.putI("precision", rpick({12, 13, 14, 15, 16, 18, 18}));
     c.putU("mut_seed", rseed());
     return c;
